@@ -105,6 +105,13 @@ def programs():
     P['loop-reconnect-plain||sender-z'] = dict(z='permessage-deflate', loop='reconnect', loop_n=6,
                                                threads=[[['send_text', 'T1-0 kkkkkkkkkkkkkkkkkkkkkkkk']]])
     P['loop-reconnect-plain||closer'] = dict(z='permessage-deflate', loop='reconnect', loop_n=6, threads=[[['close', 1000, 'bye']]])
+    # the first compressed text frame that reaches the socket fails (timeout, nothing written) while another thread is
+    # waiting to send a message with the same words: whoever comes next compresses in a context the failed one has left
+    words = 'the same words again and again, the same words again and again. '
+    P['sender-z-fails||sender-z'] = dict(z='permessage-deflate', frame_faults={1: 'timeout'},
+                                         threads=[[['send_text', 'T0-0 ' + words * 3]], [['send_text', 'T1-0 ' + words * 3], ['send_text', 'T1-1 ' + words * 2]]])
+    P['sender-z-fails||sender-z||sender-z'] = dict(z='permessage-deflate', frame_faults={1: 'runtime'},
+                                                   threads=[[['send_text', 'T0-0 ' + words * 3]], [['send_text', 'T1-0 ' + words * 3]], [['send_text', 'T2-0 ' + words * 2]]])
     return P
 
 
@@ -168,6 +175,8 @@ def _execute(prog, plan=None, rnd=None, switch_prob=0.0, files=None, pct=None):
         w = H.World(factory, split_send=True, horizon=horizon, stop_at=horizon or None, budget=50000)
         with simnet.Installed(w):
             ws = env.WebSocket('ws://example.com/', compress=bool(z))
+            if prog.get('frame_faults'):
+                w.frame_faults = {int(k_): v_ for k_, v_ in prog['frame_faults'].items()}
             g = ws.connect(session_class=simnet.SimSession, **ckw)
             evs = []
             for ev in g:
@@ -360,6 +369,9 @@ def judge_c11(prog, out):
     for r in out.records:
         if r['ok']:
             want.append((r['tid'], r['j']) + expected_payload(r['call']))
+        elif prog.get('frame_faults') and r['exc_type'] is not None and issubclass(r['exc_type'], lerrors.TransportFail):
+            # the injected write failure of this program: that message was not sent, nothing is expected of it
+            continue
         else:
             return 'send-raised', detail, None
     lib = []
